@@ -62,7 +62,7 @@ def run(chk):
     chk.rule("C16.E6", "every configparser error while reading or substituting is converted to a configuration error", 7)
     chk.rule("C16.E7", "no denominator on a target's write path can vanish for a row count its validation accepts", 11)
     chk.rule("C16.E8", "every raise on the configuration path raises a ConfigurationException subclass", 40)
-    chk.rule("C16.E9", "the console entry point reports ConfigurationException as 'configuration error - ...' and wires parser and options to its worker", 3)
+    chk.rule("C16.E9", "the console entry point reports ConfigurationException as 'configuration error - ...' and wires parser and options to its worker", 4)
     chk.rule("C16.E10", "values the reference manual lists as valid are accepted (targets, interpolation, modifiers, forms)", 4)
     chk.rule("C16.E11", "spline()/trans() definitions: wrong part counts, keywords, parameter counts and r_min positions rejected; well-formed accepted", 18)
     chk.rule("C16.E12", "unknown target / form / modifier / interpolation / missing section give configuration errors", 6)
@@ -585,9 +585,26 @@ def main_wraps(chk, P):
     chk.ob("C16.E9", "... and likewise when it is raised during tabulation", ok2, site=fi.site(),
            found=msg2 if msg2 is not None else (r2.raised, r2.exit), expect="configuration error - <message>", key="C16.E9|main-tabulate")
     # parser and parsed options reach the worker where it expects them: a plain run ends with exit status 0
-    r3 = W.run_potable(P, given, hooks={CPI: lambda i, fv, a, k, n: NONE, TAB: lambda i, fv, a, k, n: NONE})
+    seen_tab = {}
+
+    def tab(i, fv, a, k, n):
+        names = fv.fi.params()
+        bound = dict(zip(names, a))
+        bound.update(k)
+        seen_tab.update(bound)
+        return NONE
+    r3 = W.run_potable(P, given, hooks={CPI: lambda i, fv, a, k, n: NONE, TAB: tab})
     code = r3.exit
     ok3 = r3.raised is None and not r3.parser.errors and code is not None and (getattr(code, "v", 1) is None or (isinstance(code, Num) and code.const() == 0))
+    cpv = [v for v in seen_tab.values() if isinstance(v, InstV) and v.ci.name in ("ConfigParser", "FilteredConfigParser")]
+    outv = [v for v in seen_tab.values() if isinstance(v, Const) and v.v == "out"]
+    tabfi = P.func("atsim.potentials.tools.potable._actions", "action_tabulate")
+    tparams = tabfi.params()
+    ok4 = len(seen_tab) == 2 and len(cpv) == 1 and len(outv) == 1 and isinstance(seen_tab.get(tparams[0]), InstV) \
+        and isinstance(seen_tab.get(tparams[1]), Const)
+    chk.ob("C16.E9", "the tabulation action receives (the parsed model, the output file name) in its parameter order", ok4,
+           site=fi.site(), found=dict((k_, repr(v)) for k_, v in seen_tab.items()), expect="%s(parser, 'out')" % tabfi.name,
+           key="C16.E9|tabulate-arguments")
     chk.ob("C16.E9", "a plain 'potable MODEL OUT' run hands the argument parser and the parsed options on in the worker's parameter order "
                      "and ends with exit status 0", ok3,
            site=fi.site(), found=(r3.raised, r3.parser.errors, code), expect="exit 0", key="C16.E9|main-arguments")
